@@ -703,9 +703,33 @@ theorem follow_up_when_count_rejected (s : Sig) (isM : Bool) (w : WS) (args : Op
 
 /-- when.go:123 — the same for `In(...)`: a group with the wrong number of conditions is rejected -/
 theorem follow_up_in_count_rejected (s : Sig) (isM : Bool) (w : WS) (g : List V) (h : Bool) (rest : List (List V × Bool))
-    (hlen : g.length ≠ (inTypes isM s).length) :
+    (hv : s.variadic = false) (hlen : g.length ≠ (inTypes isM s).length) :
     whenStep s isM w (.in_ ((g, h) :: rest)) = (w, .error ⟨.inCount, [.str]⟩) := by
-  simp [whenStep, wIn, toExpr, hlen, rStr, rej]
+  simp [whenStep, wIn, hv, toExpr, hlen, rStr, rej]
+
+/-- **variadic targets**: a later `When` / `Matches` with fewer conditions than FIXED parameters is rejected
+    (matcher.go:97-105: the type list keeps all fixed parameters, so `ToExpr`'s count test fails), however many fixed
+    parameters there are -/
+theorem follow_up_variadic_too_few_rejected (s : Sig) (isM : Bool) (w : WS) (args : Option (List V)) (hit : Bool)
+    (hv : s.variadic = true) (h : (args.getD []).length < (inTypes isM s).length - 1) :
+    whenStep s isM w (.when_ args hit) = (w, .error ⟨.whenCount, [.str]⟩) := by
+  have hne : ¬ (args.getD []).length = (inTypes isM s).length - 1 +
+      ((args.getD []).length - ((inTypes isM s).length - 1)) := by omega
+  simp [whenStep, wWhen, newDefaultMatch, hv, toExpr, hne, rStr, rej, bind, Except.bind]
+
+/-- and the same for `In(...)` on a variadic target (value.go:118) -/
+theorem follow_up_variadic_in_too_few_rejected (s : Sig) (isM : Bool) (w : WS) (g : List V) (h : Bool)
+    (rest : List (List V × Bool)) (hv : s.variadic = true) (hlen : g.length < (inTypes isM s).length - 1) :
+    whenStep s isM w (.in_ ((g, h) :: rest)) = (w, .error ⟨.inCount, [.str]⟩) := by
+  simp [whenStep, wIn, hv, toExprV, hlen, rStr, rej]
+
+example :
+    let i : Ty := ⟨.int, 8, 25, false, 0⟩
+    let st : Ty := ⟨.str, 16, 31, false, 0⟩
+    let sl : Ty := ⟨.slice, 24, 32, false, 0⟩
+    whenStep ⟨[st, i, sl], [i], true, i⟩ false ⟨true, true, true, true⟩ (.when_ (some [.val st]) false) =
+      (⟨true, true, true, true⟩, .error ⟨.whenCount, [.str]⟩) :=
+  follow_up_variadic_too_few_rejected _ _ _ _ _ rfl (by decide)
 
 /-- when.go:168 — and for `Matches(...)`: a pair whose condition list has the wrong length is rejected -/
 theorem follow_up_matches_count_rejected (s : Sig) (isM : Bool) (w : WS) (a r : List V) (hit : Bool)
